@@ -16,7 +16,7 @@ from ..util import Info, Raised, as_nibbles, bytes_of_nibbles, expect, expect_eq
 
 ID = "C09"
 LEVEL = "exploration"
-BUDGET = {"quick": 8000, "thorough": 300000}
+BUDGET = {"quick": 8000, "thorough": 600000}
 RULE = (
     "case = (initial mapping of 2-14 keys, prune flag, use_cache flag, schedule of walk "
     "steps each preceded by 0-3 mutations and choosing nearest_unknown / nearest_right "
